@@ -62,4 +62,23 @@ theorem skel_OAuthProxy_isTrustedIP_ok : skel_OAuthProxy_isTrustedIP = ([
   "return p.trustedIPs.Has(remoteAddr)",
   "p.trustedIPs.Has"] : List String) := rfl
 
+theorem skel_xForwardedForClientIPParser_GetRealClientIP_ok : skel_xForwardedForClientIPParser_GetRealClientIP = ([
+  "if realIP != \"\"",
+  "h.Get",
+  "return nil, nil",
+  "if commaIndex != -1",
+  "strings.IndexRune",
+  "strings.TrimSpace",
+  "if err == nil",
+  "net.SplitHostPort",
+  "net.ParseIP",
+  "if ip == nil",
+  "return nil, fmt.Errorf(\"unable to parse ip (%s) from %s header\", ipStr,",
+  "return ip, nil"] : List String) := rfl
+
+theorem skel_GetClientIP_ok : skel_GetClientIP = ([
+  "if p != nil",
+  "return p.GetRealClientIP(req.Header)",
+  "return getRemoteIP(req)"] : List String) := rfl
+
 end O2P.Expect.C16
